@@ -829,4 +829,4 @@ CHECKS['C17'] = VmemCheck('C17', lambda d: True,
     'Theorems (Coq): the call sequence of vmem_helper::new regenerated from the source builds two views of one shared object at offset 0 that holds the supplied data (C17_source_closed, C17_mirror), '
     'page rounding is the least multiple (C17_round), a contiguous window resolves to the ring slots (C17_slice), the release drops items once before unmapping both halves. '
     'Tie: the whole sequential correspondence on a --features vmem build (1-3 pages, element sizes 4/8/16/24 bytes, histories positioned at the physical end: single mirrored slices, '
-    'initial contents, ledger, /proc/self/maps after release).', extra=c17_pagemul)
+    'initial contents, ledger, /proc/self/maps after release).', extra=c17_pagemul, propfiles=['Props/C17.v', 'Props/DTieV.v'])
